@@ -4,6 +4,7 @@ import (
 	"context"
 	stderrors "errors"
 	"sync"
+	"time"
 
 	"github.com/pkg/errors"
 	"github.com/yandex/pandora/core"
@@ -192,3 +193,40 @@ func HarnessC05Schedule()        { c05Scenario(fSchedule, false) }
 func HarnessC05Warmup()          { c05Scenario(fWarmup, false) }
 func HarnessC05ShotPanic()       { c05Scenario(fShotPanic, false) }
 func HarnessC05ProviderCancel()  { c05Scenario(fProvider, true) }
+
+// Two pools: one fails while the other still has work and would run until cancelled. The run
+// must report the failure, and the healthy pool must be stopped so that Engine.Wait returns.
+func HarnessC05TwoPoolsOneFails() {
+	w := &c05World{}
+	failing := &hProvider{q: make(chan core.Ammo, 1), items: 0, failAt: 0, runErr: errInjected}
+	healthy := &hProvider{q: make(chan core.Ammo, 1), items: 1 << 20, failAt: -1} // practically endless ammo
+	aggrA, aggrB := &hAggregator{}, &hAggregator{}
+	newGun := func() (core.Gun, error) {
+		g := &hGun{mu: &w.mu, shots: &w.shots}
+		w.mu.Lock()
+		w.guns = append(w.guns, g)
+		w.mu.Unlock()
+		return g, nil
+	}
+	pool := func(id string, p core.Provider, a core.Aggregator, rps core.Schedule) InstancePoolConfig {
+		return InstancePoolConfig{ID: id, Provider: p, Aggregator: a, NewGun: newGun,
+			NewRPSSchedule:  func() (core.Schedule, error) { return rps, nil },
+			StartupSchedule: schedule.NewOnce(1)}
+	}
+	metrics := hMetrics()
+	// the healthy pool never runs out of schedule on its own: a pause that only a cancel ends
+	longPause := schedule.NewComposite(schedule.NewConst(0, 100*365*24*time.Hour), schedule.NewOnce(1))
+	e := New(zap.NewNop(), metrics, Config{Pools: []InstancePoolConfig{
+		pool("bad", failing, aggrA, schedule.NewOnce(1)), pool("good", healthy, aggrB, longPause)}})
+	vTimerLateMax(0)
+	err := e.Run(context.Background())
+	vCheck("E3.failure.reported", err != nil)
+	if err != nil {
+		vCheck("E3.failure.carries.cause", errors.Cause(err) == errInjected || stderrors.Is(err, errInjected))
+	}
+	e.Wait() // E1: must return, i.e. the healthy pool was stopped
+	vCheck("E5.healthy.provider.stopped", healthy.runDone)
+	vCheck("E5.healthy.aggregator.stopped", aggrB.runDone)
+	vCheck("E5.instances.finished", metrics.InstanceStart.Get() == metrics.InstanceFinish.Get())
+	vReach("end")
+}
